@@ -107,6 +107,41 @@ theorem router_passes_body_unchanged (rq : Request β) :
     unfold serve
     rw [hroute]
 
+/-- **Elements are independent of each other.** The element handed to the Component at position `k`
+is the decoder's element `k` of this body, and what the Component sees of it (`toItem`) is a function
+of that element alone: for two requests to the same endpoint with the same method, Content-Type and
+version header, whose decoded bodies agree at position `k`, the Component is handed the same element
+at position `k` — whatever the other elements of the two bodies are. (A router that lets the elements
+of one request share sub-objects — the attestation data of the first element with the same slot and
+block root, the aggregate of the first element of the same committee — is not of this form: there the
+element at position `k` depends on element 0.) -/
+theorem router_elements_independent (rq rq' : Request β)
+    (hr : rq'.route = rq.route) (hm : rq'.method = rq.method) (hct : rq'.ct = rq.ct)
+    (hv : rq'.version = rq.version) (ep ep' : Endpoint) (elems elems' : List Elem)
+    (h : route decode rq = .call ep elems) (h' : route decode rq' = .call ep' elems') :
+    ep' = ep ∧
+    ∃ enc v, decodeArgs rq = .ok (ep, enc, v) ∧
+      decode enc rq.route v rq.body = .ok elems ∧ decode enc rq.route v rq'.body = .ok elems' ∧
+      ∀ k : Nat, (elems.map (toItem env))[k]? = (elems[k]?).map (toItem env) ∧
+        (elems[k]? = elems'[k]? →
+          (elems.map (toItem env))[k]? = (elems'.map (toItem env))[k]?) := by
+  obtain ⟨enc, v, hargs, hd, _⟩ := route_call h
+  obtain ⟨enc', v', hargs', hd', _⟩ := route_call h'
+  have hsame : decodeArgs rq' = decodeArgs rq := by
+    unfold decodeArgs
+    rw [hr, hm, hct, hv]
+  rw [hsame, hargs] at hargs'
+  have hinj := Except.ok.inj hargs'
+  have h1 : ep = ep' := (Prod.mk.inj hinj).1
+  have h2 : enc = enc' := (Prod.mk.inj (Prod.mk.inj hinj).2).1
+  have h3 : v = v' := (Prod.mk.inj (Prod.mk.inj hinj).2).2
+  subst h1 h2 h3
+  refine ⟨rfl, enc, v, hargs, hd, by rw [← hr]; exact hd', ?_⟩
+  intro k
+  refine ⟨by simp, ?_⟩
+  intro hk
+  simp [hk]
+
 /-- when no element is a JSON `null`, the Component stage is `Admit.admitVC` on the converted
 elements, in the order of the body: the router adds no decision of its own after decoding. -/
 theorem router_composes_with_admit (idx : ShareIdx) (nsub : Nat) (ord : List GKey → List GKey)
